@@ -948,7 +948,7 @@ pub fn run_c02(ctx: &Ctx) -> i32 {
         sector_all_up_to: 4,
         sector_stride: tier.pick(7, 3),
         tropical_routing: true,
-        points_per_case: tier.pick(3000, 4000),
+        points_per_case: tier.pick(3000, 1200),
         basis_orbit: true,
         basis_orbit_min_loops: 3,
     };
@@ -1348,10 +1348,10 @@ pub fn run_simple(ctx: &Ctx) -> i32 {
         },
         tropical_routing: matches!(prop, "C09" | "C10" | "C11"),
         points_per_case: match prop {
-            "C10" => tier.pick(2000, 5000),
-            "C09" => tier.pick(900, 3000),
-            "C11" => tier.pick(1500, 1500),
-            _ => tier.pick(1500, 2500),
+            "C10" => tier.pick(2000, 1200),
+            "C09" => tier.pick(900, 800),
+            "C11" => tier.pick(1500, 800),
+            _ => tier.pick(1500, 800),
         },
         basis_orbit: prop == "C10",
         basis_orbit_min_loops: 2,
